@@ -120,6 +120,7 @@ impl CCase {
             "stdin": self.spec.stdin,
             "force": self.spec.force,
             "preexisting": self.spec.preexisting,
+            "stale_temp": self.spec.stale_temp,
             "writer": self.writer.name(),
             "meta_values": self.spec.metadata_values,
             "meta_files": self.spec.metadata_files.iter().map(|(k, v)| (k.clone(), hex(v))).collect::<Vec<_>>(),
@@ -143,6 +144,7 @@ impl CCase {
         spec.stdin = v["stdin"].as_u64();
         spec.force = v["force"].as_bool().unwrap_or(false);
         spec.preexisting = v["preexisting"].as_u64().map(|x| x as usize);
+        spec.stale_temp = v["stale_temp"].as_u64().map(|x| x as usize);
         spec.metadata_values = v["meta_values"]
             .as_array()
             .map(|a| {
@@ -265,6 +267,11 @@ pub fn gen_case(rng: &mut Rng, large: bool, cheap_comp: bool) -> CCase {
             _ => src_len * 2 + rng.urange(1000, 300_000),
         });
     }
+    if cli && rng.chance(1, 6) {
+        // Leftover of an earlier failed compress: a temp file, empty / short / far longer
+        // than what this run will write.
+        spec.stale_temp = Some(*rng.pick(&[0usize, 33, 500_000]));
+    }
     // With 4/5-byte hashes keep the number of distinct chunks tiny relative to 2^32.
     let src_class = *rng.pick(&gen::SRC_CLASSES);
     CCase {
@@ -347,6 +354,9 @@ pub fn run_cli(dir: &Path, name: &str, source: &[u8], spec: &CompressSpec, inj: 
         std::fs::write(&out_path, junk).expect("write pre-existing output");
     }
     let temp = scn::temp_path_of(&out_path);
+    if let Some(n) = spec.stale_temp {
+        std::fs::write(&temp, Rng::new(n as u64 ^ 0x7e).bytes(n)).expect("write stale temp file");
+    }
     let src_path = dir.join(format!("{}.src", name));
     run.watch = vec![out_path.clone(), temp.clone(), src_path];
     run.log_reads = true;
